@@ -62,6 +62,7 @@ def run(ctx):
     ctx.rule('NODROP', 'no validator drops or swallows a checker result')
     ctx.rule('SIBLING', 'reports reach every leaf their cumulative validator reaches')
     ctx.rule('LEAFREAD', 'each leaf checker (transitively) reads the data its invariant is about')
+    ctx.rule('LEAFARITY', 'Cell::is_valid refuses every vertex count other than D + 1 (an equality test, not a lower bound)')
     ctx.rule('LEAFMUTUAL', 'the neighbour check of a shared facet requires both cells to name each other')
     _witness(ctx)
     for cfg in ctx.cfgs:
@@ -73,6 +74,7 @@ def run(ctx):
         _sibling(ctx, cfg, prog, lv)
         _leafread(ctx, cfg, prog)
         _leafmutual(ctx, cfg, prog)
+        _leafarity(ctx, cfg, prog)
     return ctx.finish(EXPLANATION)
 
 
@@ -147,6 +149,86 @@ def _leafread(ctx, cfg, prog):
 
 
 NEIGH_MATCH = _T + 'validate_neighbor_pointers_match_facet_to_cells_map'
+
+
+CELL_VALID = 'core::cell::Cell::is_valid'
+
+
+def _slice_info(b, local, depth=40, fields=None):
+    seen, work, calls, hasD = set(), [local], [], False
+    fields = fields if fields is not None else set()
+    while work and depth:
+        depth -= 1
+        l = work.pop()
+        if l in seen:
+            continue
+        seen.add(l)
+        for (_, idx, node) in b.defs.get(l, []):
+            if idx == 'term':
+                calls.append(node.resolved or node.callee or '')
+                for o in node.args:
+                    if o.place is not None:
+                        work.append(o.place.local)
+                        fields.update(str(x) for x in o.place.proj)
+                    elif o.kind == 'k' and isinstance(o.const, dict) and o.const.get('v') == 'D':
+                        hasD = True
+            else:
+                for o in node.rv.ops:
+                    if o.place is not None:
+                        work.append(o.place.local)
+                        fields.update(str(x) for x in o.place.proj)
+                    elif o.kind == 'k' and isinstance(o.const, dict) and o.const.get('v') == 'D':
+                        hasD = True
+                if node.rv.place is not None:
+                    work.append(node.rv.place.local)
+                    fields.update(str(x) for x in node.rv.place.proj)
+    return calls, hasD
+
+
+def _leafarity(ctx, cfg, prog):
+    """LEAFARITY: a cell is a D-simplex: exactly D + 1 vertex keys.  `Cell::is_valid` (the Level-1 leaf that owns the
+    invariant; no Level-2 leaf re-checks the count) contains an (in)equality test between the length of the vertex list
+    and a value computed from the const dimension, and from its unequal edge no success exit is reachable.  A lower
+    bound (`get(..=D)`, `len() < D + 1`) accepts a cell with D + 2 keys and ignores the extra one."""
+    b = prog.bodies.get(CELL_VALID)
+    if b is None:
+        ctx.ob('ANCHOR', 'missing|' + CELL_VALID, cfg, False, 'LEAFARITY names a function that no longer exists')
+        return
+    site = '%s:%d' % (b.file, b.line)
+    exits = {e['bb'] for e in gate.success_exit_blocks(b)}
+    found = []
+    for blk in b.blocks:
+        if blk.cleanup:
+            continue
+        for s_ in blk.stmts:
+            if s_.kind != 'A' or s_.rv.k != 'bin' or s_.rv.raw.get('op') not in ('Eq', 'Ne') or not s_.place.is_local():
+                continue
+            sides = []
+            for o in s_.rv.ops:
+                if o.place is not None:
+                    flds = set()
+                    calls, hasD = _slice_info(b, o.place.local, fields=flds)
+                    is_vertex_len = any(c.rsplit('::', 1)[-1] == 'len' for c in calls) and any('vertices' in f for f in flds) \
+                        and not any('neighbors' in f for f in flds)
+                    sides.append((is_vertex_len, hasD))
+                else:
+                    sides.append((False, o.kind == 'k' and isinstance(o.const, dict) and o.const.get('v') == 'D'))
+            if not ((sides[0][0] and sides[1][1]) or (sides[1][0] and sides[0][1])):
+                continue
+            t = blk.term
+            if t.k != 'switch' or t.discr.place is None or not t.discr.place.is_local() or t.discr.place.local != s_.place.local:
+                continue
+            listed = {v: tg for v, tg in t.values}
+            tgt_true = t.otherwise if 0 in listed else listed.get(1, t.otherwise)
+            tgt_false = listed.get(0, t.otherwise)
+            unequal = tgt_true if s_.rv.raw['op'] == 'Ne' else tgt_false
+            reach = flow.reach_edges(b, [unequal])
+            found.append((s_.line, not (exits & reach)))
+    ok = any(g for _, g in found)
+    ctx.ob('LEAFARITY', CELL_VALID, cfg, ok,
+           'vertex count compared with D + 1 by (in)equality at line %s; the unequal edge reaches no success exit' % [l for l, g in found if g][:2]
+           if ok else 'no (in)equality test between the length of the vertex list and D + 1 whose unequal edge refuses: a cell with '
+           'D + 2 vertex keys passes Level 1 (tests found: %s)' % (found or 'none'), site=site)
 
 
 def _leafmutual(ctx, cfg, prog):
